@@ -265,6 +265,21 @@ fn cross_forms(l: usize, op: &str, r: usize) -> Vec<(&'static str, String)> {
         v.push(("literal-parameter", format!("{decls}functie t(r) {{ {ll} {op} r }} t({rv})")));
         v.push(("literal-local", format!("functie t() {{ {decls}{ll} {op} {rv} }} t()")));
     }
+    // the neutral elements 0 and 1 as literals (x + 0, 1 * x, x / 1 ... are what a compiler is tempted to simplify): only where
+    // the other operand is not an int, so that the expectation (an error) does not depend on the value
+    if CROSS[r].0 == "int" && CROSS[l].0 != "int" {
+        for lit in ["0", "1"] {
+            v.push(("parameter-neutral-literal", format!("{decls}functie t(l) {{ l {op} {lit} }} t({lv})")));
+            v.push(("local-neutral-literal", format!("functie t() {{ {decls}{lv} {op} {lit} }} t()")));
+            v.push(("global-neutral-literal", format!("{decls}{lv} {op} {lit}")));
+        }
+    }
+    if CROSS[l].0 == "int" && CROSS[r].0 != "int" {
+        for lit in ["0", "1"] {
+            v.push(("neutral-literal-parameter", format!("{decls}functie t(r) {{ {lit} {op} r }} t({rv})")));
+            v.push(("neutral-literal-local", format!("functie t() {{ {decls}{lit} {op} {rv} }} t()")));
+        }
+    }
     if let (Some(ll), Some(rl)) = (CROSS_LIT[l], CROSS_LIT[r]) {
         v.push(("literals", format!("{ll} {op} {rl}")));
     }
